@@ -741,6 +741,26 @@ def is_internal_precision(node, idx=1):
         return False
 
 
+_NO_DEFAULT = object()
+
+
+def b_next(interp, args, kwargs, node):
+    """next(iterator[, default]) over a generator expression / concrete iterable: its first element"""
+    it = args[0]
+    default = args[1] if len(args) > 1 else _NO_DEFAULT
+    if isinstance(it, GenV):
+        items = interp.comprehend(it.node, it.env)
+    elif isinstance(it, (list, tuple)):
+        raise Raised('TypeError', getattr(node, 'lineno', None), 'object is not an iterator', implicit=True)
+    else:
+        raise Unsupported("next() on this kind of iterator")
+    if items:
+        return items[0]
+    if default is _NO_DEFAULT:
+        raise Raised('StopIteration', getattr(node, 'lineno', None), '', implicit=True)
+    return default
+
+
 def b_round(interp, args, kwargs, node):
     x = args[0]
     if len(args) == 1:
@@ -1146,7 +1166,7 @@ def call_type(interp, T, args, kwargs, node):
 
 
 BUILTINS = {
-    'isinstance': b_isinstance, 'len': b_len, 'abs': b_abs, 'round': b_round, 'sum': b_sum, 'max': b_max,
+    'isinstance': b_isinstance, 'len': b_len, 'abs': b_abs, 'next': b_next, 'round': b_round, 'sum': b_sum, 'max': b_max,
     'min': b_min, 'any': b_any, 'all': b_all, 'zip': b_zip, 'enumerate': b_enumerate, 'map': b_map, 'range': b_range,
     'reversed': b_reversed, 'deepcopy': b_deepcopy, 'copy': b_copy, 'print': b_print, 'chr': b_chr, 'ord': b_ord,
     'hash': b_hash, 'sorted': b_sorted, 'cache': b_identity_decorator,
